@@ -59,6 +59,14 @@ func (g *gen) lifeCheck(seed []byte, h, hf int, history []int, what string) {
 	pk := x.GetPK()
 	var ops []string
 	ops = append(ops, fmt.Sprintf("x.new k %s %d %d 0", hx(seed), h, hf))
+	// every signature the key returned must still be the bytes it returned once the history is over
+	hs := newState()
+	defer func() {
+		for _, c := range hs.changedLater() {
+			g.check(false, "signature-changed-later", "a signature the key returned earlier was changed by a later Sign / SetIndex on the same key (the caller's signature no longer verifies): "+c, ops...)
+			break
+		}
+	}()
 	for _, a := range history {
 		if a >= 0 {
 			r := guard(func() string { x.SetIndex(uint32(a)); return "ok" })
@@ -81,6 +89,7 @@ func (g *gen) lifeCheck(seed []byte, h, hf int, history []int, what string) {
 			return "ok"
 		})
 		ops = append(ops, "x.sign k "+hx(msg))
+		hs.hold(fmt.Sprintf("%s: x.new k %s %d %d 0 … x.sign k %s (index %d)", what, hx(seed), h, hf, hx(msg), idx), sig)
 		if r != "ok" {
 			g.check(false, "life-sign", fmt.Sprintf("%s: Sign at index %d failed: %s", what, idx, r), ops...)
 			return
@@ -327,6 +336,54 @@ func genC02(g *gen) {
 
 // ---------------------------------------------------------------- C04
 
+// craftedTriple: a (message, signature, public key) triple that the scheme defines as valid, for a tree of height h that is
+// never built (see Xmss.craft in the Lean model: a genuine WOTS key at one leaf, an arbitrary authentication path, the
+// root that path leads to). The model produces it; the library must accept it.
+type craftedTriple struct {
+	h, hf    int
+	idx      uint32
+	msg, sig []byte
+	pk       [67]byte
+}
+
+func (g *gen) craftedTriples(heights []int) []craftedTriple {
+	var lines []string
+	var ts []craftedTriple
+	for _, h := range heights {
+		for hf := 0; hf < 3; hf++ {
+			var idx uint32
+			switch g.rng.Intn(4) {
+			case 0:
+				idx = 0
+			case 1:
+				idx = uint32(1)<<uint(h) - 1
+			default:
+				idx = uint32(g.rng.Int63n(int64(1) << uint(h)))
+			}
+			msg := g.bytes(1 + g.rng.Intn(33))
+			lines = append(lines, fmt.Sprintf("x.craft %d %d %d %s %s", hf, h, idx, hx(msg), hx(g.bytes(16))))
+			ts = append(ts, craftedTriple{h: h, hf: hf, idx: idx, msg: msg})
+		}
+	}
+	outs := modelLines(lines)
+	var r []craftedTriple
+	for i, t := range ts {
+		if i >= len(outs) {
+			break
+		}
+		v, ok := okval(outs[i])
+		f := strings.Split(v, " ")
+		if !ok || len(f) != 2 {
+			continue
+		}
+		t.sig = unhex(f[0])
+		copy(t.pk[:], unhex(f[1]))
+		r = append(r, t)
+	}
+	g.counts["crafted-valid-triples"] += len(r)
+	return r
+}
+
 func genC04(g *gen) {
 	seed := g.bytes(48)
 	type triple struct {
@@ -347,6 +404,39 @@ func genC04(g *gen) {
 	for _, t := range ts {
 		v := g.op("x.verify 16 %s %s %s", hx(t.msg), hx(t.sig), hx(t.pk[:]))
 		g.check(v == "ok true", "valid-accepted", "valid signature not accepted: "+v, g.ops[len(g.ops)-1])
+	}
+	// valid triples at every height 4 … 30 and each hash function (crafted through the model; no key of that size is built)
+	g.note("valid triples at heights 4..30")
+	hts := []int{4, 8, 10, 14, 16, 18, 22, 26, 30}
+	if g.thorough {
+		hts = []int{4, 6, 8, 10, 12, 14, 16, 18, 20, 22, 24, 26, 28, 30}
+	}
+	for k, t := range g.craftedTriples(hts) {
+		line := fmt.Sprintf("x.verify 16 %s %s %s", hx(t.msg), hx(t.sig), hx(t.pk[:]))
+		var v string
+		if k%3 == 0 {
+			v = g.op("%s", line)
+		} else {
+			v = execOp(g.st, line)
+		}
+		g.check(v == "ok true", "valid-accepted", fmt.Sprintf("a valid signature at height %d (%s, index %d) is not accepted: %s", t.h, hfName[t.hf], t.idx, v), line)
+		// and turned away once any one part is disturbed: message, index, R, a chain value, an authentication node, root, seed
+		for _, pos := range []int{0, 3, 4 + g.rng.Intn(32), 36 + g.rng.Intn(67*32), 36 + 67*32 + g.rng.Intn(t.h*32), len(t.sig) - 1} {
+			bad := append([]byte{}, t.sig...)
+			bad[pos] ^= 1 << uint(g.rng.Intn(8))
+			bl := fmt.Sprintf("x.verify 16 %s %s %s", hx(t.msg), hx(bad), hx(t.pk[:]))
+			g.check(execOp(g.st, bl) == "ok false", "sig-bitflip-rejected", fmt.Sprintf("height %d: a signature with one flipped bit (byte %d) is accepted", t.h, pos), bl)
+		}
+		for _, pos := range []int{3 + g.rng.Intn(32), 35 + g.rng.Intn(32)} {
+			bp := t.pk
+			bp[pos] ^= 1 << uint(g.rng.Intn(8))
+			bl := fmt.Sprintf("x.verify 16 %s %s %s", hx(t.msg), hx(t.sig), hx(bp[:]))
+			g.check(execOp(g.st, bl) == "ok false", "other-key-rejected", fmt.Sprintf("height %d: accepted under a public key with one flipped bit (byte %d)", t.h, pos), bl)
+		}
+		bm := append([]byte{}, t.msg...)
+		bm[g.rng.Intn(len(bm))] ^= 0x40
+		bl := fmt.Sprintf("x.verify 16 %s %s %s", hx(bm), hx(t.sig), hx(t.pk[:]))
+		g.check(execOp(g.st, bl) == "ok false", "other-message-rejected", fmt.Sprintf("height %d: accepted for another message", t.h), bl)
 	}
 	// many genuine signatures (implementation only): the WOTS checksum of the message digest takes its rarer values too
 	// (a verifier-side slip in the checksum digits shows for a per-cent of the messages); each must verify, and each
